@@ -468,34 +468,72 @@ func ruleSemantic(c *Ctx) {
 		}
 		// Data fields of returned SemanticTokens = the encoder result
 		nData := 0
+		// the handler and the module helpers it calls directly (a helper that stores the result and builds the
+		// response): values that are parameters of the helper stand for the arguments of the call
+		type scopeT struct {
+			g    *ssa.Function
+			site *ssa.Call
+		}
+		scopes := []scopeT{{f, nil}}
 		for _, b := range f.Blocks {
 			for _, ins := range b.Instrs {
-				st, ok := ins.(*ssa.Store)
-				if !ok || !fieldAddrNamed(st.Addr, "Data") {
-					continue
-				}
-				bt := st.Addr.(*ssa.FieldAddr).X.Type()
-				if !typeHasSuffix(bt, "protocol.SemanticTokens") {
-					continue
-				}
-				if sl, ok := st.Val.(*ssa.Slice); ok {
-					if _, fresh := sl.X.(*ssa.Alloc); fresh {
-						continue // empty result for an unknown/empty document
+				if call, ok := ins.(*ssa.Call); ok {
+					if cal := call.Call.StaticCallee(); cal != nil && inModule(cal) && cal.Blocks != nil && cal != f && !isCacheMethod(cal) {
+						scopes = append(scopes, scopeT{cal, call})
 					}
 				}
-				nData++
-				c.check(st.Val == ssa.Value(enc), "T12", fname, kind+": response data is the encoded token list", st.Pos(),
-					"Data is the value returned by the encoder", "the Data of the response is not the encoder's output for the current text")
+			}
+		}
+		inHandler := func(v ssa.Value, sc scopeT) ssa.Value {
+			if prm, ok := v.(*ssa.Parameter); ok && sc.site != nil {
+				for i, q := range sc.g.Params {
+					if q == prm && i < len(sc.site.Call.Args) {
+						return sc.site.Call.Args[i]
+					}
+				}
+			}
+			return v
+		}
+		for _, sc := range scopes {
+			for _, b := range sc.g.Blocks {
+				for _, ins := range b.Instrs {
+					st, ok := ins.(*ssa.Store)
+					if !ok || !fieldAddrNamed(st.Addr, "Data") {
+						continue
+					}
+					bt := st.Addr.(*ssa.FieldAddr).X.Type()
+					if !typeHasSuffix(bt, "protocol.SemanticTokens") {
+						continue
+					}
+					if sl, ok := st.Val.(*ssa.Slice); ok {
+						if _, fresh := sl.X.(*ssa.Alloc); fresh {
+							continue // empty result for an unknown/empty document
+						}
+					}
+					nData++
+					c.check(inHandler(st.Val, sc) == ssa.Value(enc), "T12", fname, kind+": response data is the encoded token list", st.Pos(),
+						"Data is the value returned by the encoder", "the Data of the response is not the encoder's output for the current text")
+				}
 			}
 		}
 		if kind != "range" {
-			sets := findCalls(f, func(cal *ssa.Function) bool { return isCacheMethod(cal) && cal.Signature.Params().Len() == 3 })
+			type setT struct {
+				call *ssa.Call
+				sc   scopeT
+			}
+			var sets []setT
+			for _, sc := range scopes {
+				for _, s := range findCalls(sc.g, func(cal *ssa.Function) bool { return isCacheMethod(cal) && cal.Signature.Params().Len() == 3 }) {
+					sets = append(sets, setT{s, sc})
+				}
+			}
 			if len(sets) == 0 {
 				c.finding("T12", fname, kind+": result cached for later deltas", f.Pos(), "the handler never stores its result in the token cache: the next delta request cannot be answered")
 			}
-			for _, s := range sets {
+			for _, st := range sets {
+				s := st.call
 				args := s.Common().Args
-				data := args[len(args)-1]
+				data := inHandler(args[len(args)-1], st.sc)
 				c.check(data == ssa.Value(enc), "T12", fname, kind+": cached data = data sent with the new result id", s.Pos(),
 					"what is cached under the result id is exactly the array returned with that id", "the array cached under the new result id is not the array sent to the client: the next delta is computed against data the client never received")
 			}
@@ -509,6 +547,7 @@ func ruleSemantic(c *Ctx) {
 				pos  token.Pos
 			}
 			var ecs []editC
+			parentSite := map[*ssa.Call]*ssa.Call{}
 			collect := func(g *ssa.Function, site *ssa.Call) {
 				for _, b := range g.Blocks {
 					for _, ins := range b.Instrs {
@@ -538,8 +577,8 @@ func ruleSemantic(c *Ctx) {
 							vals[".Start"] = st[".Start"][0]
 						}
 						blks := []*ssa.BasicBlock{b}
-						if site != nil {
-							blks = append(blks, site.Block())
+						for s2, d := site, 0; s2 != nil && d < 4; s2, d = parentSite[s2], d+1 {
+							blks = append(blks, s2.Block())
 						}
 						ecs = append(ecs, editC{vals, blks, root.Pos()})
 					}
@@ -549,25 +588,55 @@ func ruleSemantic(c *Ctx) {
 			helperCalls := findCalls(f, func(cal *ssa.Function) bool {
 				return inModule(cal) && cal.Blocks != nil && cal.Signature.Results().Len() == 1 && typeHasSuffix(cal.Signature.Results().At(0).Type(), "protocol.SemanticTokensEdit")
 			})
+			// ... and the helpers those call in turn (computeEdits -> replaceAll): the call sites form the chain
+			// along which parameters are bound
+			isEditFn := func(cal *ssa.Function) bool {
+				return inModule(cal) && cal.Blocks != nil && cal.Signature.Results().Len() == 1 && typeHasSuffix(cal.Signature.Results().At(0).Type(), "protocol.SemanticTokensEdit")
+			}
+			seenFn := map[*ssa.Function]bool{f: true}
+			for i := 0; i < len(helperCalls) && i < 16; i++ {
+				cal := helperCalls[i].Common().StaticCallee()
+				if seenFn[cal] {
+					continue
+				}
+				seenFn[cal] = true
+				for _, nested := range findCalls(cal, isEditFn) {
+					parentSite[nested] = helperCalls[i]
+					helperCalls = append(helperCalls, nested)
+				}
+			}
 			for _, hc := range helperCalls {
 				collect(hc.Common().StaticCallee(), hc)
 			}
 			bind := func(v ssa.Value, hc []*ssa.Call) map[ssa.Value]bool {
 				// slice of v; parameters of a helper are continued in the arguments of its call
 				sl := backSlice(v)
-				for w := range sl {
-					if p, ok := w.(*ssa.Parameter); ok {
+				bound := map[*ssa.Parameter]bool{}
+				for round := 0; round < 4; round++ {
+					grew := false
+					for w := range sl {
+						p, ok := w.(*ssa.Parameter)
+						if !ok || bound[p] {
+							continue
+						}
+						bound[p] = true
 						for _, call := range hc {
 							if cal := call.Common().StaticCallee(); cal == p.Parent() {
 								for i, q := range cal.Params {
 									if q == p && i < len(call.Common().Args) {
 										for z := range backSlice(call.Common().Args[i]) {
-											sl[z] = true
+											if !sl[z] {
+												sl[z] = true
+												grew = true
+											}
 										}
 									}
 								}
 							}
 						}
+					}
+					if !grew {
+						break
 					}
 				}
 				return sl
